@@ -100,6 +100,7 @@ pub fn profile(prop: &str) -> Profile {
 }
 
 struct Shadow {
+    outsized: bool,
     len: usize,
     tx: Option<usize>,
     consumers: usize,
@@ -135,6 +136,9 @@ fn value(sh: &mut Shadow, rng: &mut Rng) -> V {
 fn lim_value(sh: &Shadow, rng: &mut Rng) -> usize {
     // 0 ..= len + 3, biased to the interesting region around the length
     let n = sh.cur_len();
+    if sh.outsized && rng.chance(1, 6) {
+        return n + 4 + rng.below(70);
+    }
     match rng.below(8) {
         0 => 0,
         1 => n,
@@ -266,18 +270,38 @@ fn no_big() -> bool {
 }
 
 pub fn gen_case(prop: &str, rng: &mut Rng) -> Case {
-    let p = profile(prop);
-    let n_steps = match rng.below(20) {
-        0..=7 => 2 + rng.below(6),
-        8..=16 => 6 + rng.below(14),
-        _ => 20 + rng.below(21),
+    let mut p = profile(prop);
+    // one run in 24 is outsized: long, with vectors of up to ~220 items (several imbl chunks),
+    // appends of up to 70 items, limits far beyond the length, more consumers, one more stage in
+    // free-form chains and (a third of them) a buffer of 128 messages — for whatever only breaks
+    // beyond a small bound
+    let outsized = rng.chance(1, 24) && !no_big();
+    let n_steps = if outsized {
+        50 + rng.below(110)
+    } else {
+        match rng.below(20) {
+            0..=7 => 2 + rng.below(6),
+            8..=16 => 6 + rng.below(14),
+            _ => 20 + rng.below(21),
+        }
     };
-    let capacity = *rng.pick(p.caps);
-    let mut sh = Shadow { len: 0, tx: None, consumers: 0, sources: 0, dropped: false, next_uid: 1, seen: Vec::new() };
+    let mut capacity = *rng.pick(p.caps);
+    if outsized {
+        p.max_consumers += 4;
+        if p.chain == ChainSel::Any {
+            p.chain_len.1 += 1;
+        }
+        if rng.chance(1, 3) {
+            capacity = 128;
+        }
+    }
+    let mut sh = Shadow { outsized, len: 0, tx: None, consumers: 0, sources: 0, dropped: false, next_uid: 1, seen: Vec::new() };
     // mostly small vectors; one run in twelve starts beyond imbl's inline / single-chunk
     // representations (different code paths for clone, ptr_eq, split, append)
-    let big = rng.chance(p.p_big.0, p.p_big.1) && !no_big();
-    let initial: Vec<V> = if big {
+    let big = (rng.chance(p.p_big.0, p.p_big.1) || (outsized && rng.chance(1, 2))) && !no_big();
+    let initial: Vec<V> = if big && outsized {
+        (0..60 + rng.below(140)).map(|_| value(&mut sh, rng)).collect()
+    } else if big {
         (0..12 + rng.below(70)).map(|_| value(&mut sh, rng)).collect()
     } else if rng.chance(1, 2) {
         (0..rng.below(6)).map(|_| value(&mut sh, rng)).collect()
@@ -349,7 +373,7 @@ pub fn gen_case(prop: &str, rng: &mut Rng) -> Case {
             0 => {
                 let n = sh.cur_len();
                 let mut w = w_ops;
-                if n >= if big { 90 } else { 8 } {
+                if n >= if outsized { 220 } else if big { 90 } else { 8 } {
                     w[0] = 0;
                     w[1] = 0;
                     w[4] = 0;
@@ -394,7 +418,7 @@ pub fn gen_case(prop: &str, rng: &mut Rng) -> Case {
                         Step::Truncate(t)
                     }
                     8 => {
-                        let k = rng.below(4);
+                        let k = if outsized && rng.chance(1, 3) { 4 + rng.below(67) } else { rng.below(4) };
                         sh.set_len(n + k);
                         Step::Append((0..k).map(|_| value(&mut sh, rng)).collect())
                     }
